@@ -46,7 +46,7 @@ VIA_RDFLIB = ["xml", "trix", "json-ld", "hext"]
 LINE_FORMATS = {"nt", "nquads", "hext"}
 EXT = {"nt": "nt", "nquads": "nq", "turtle": "ttl", "trig": "trig", "xml": "rdf", "trix": "trix", "json-ld": "jsonld", "hext": "hext"}
 CTYPE = {"nt": "application/n-triples", "nquads": "application/n-quads", "turtle": "text/turtle", "trig": "application/trig", "xml": "application/rdf+xml", "trix": "application/trix", "json-ld": "application/ld+json"}
-MODES = ["data-str", "data-bytes", "source-bytes", "file-bytesio", "source-stringio", "textwrap-raw", "file-raw", "source-raw", "file-text", "source-text", "sis-str", "sis-bytes", "fis-raw", "path-str", "path-pathlib", "loc-file", "loc-http", "loc-http-redirect", "path-guess", "http-guess"]
+MODES = ["data-str", "data-bytes", "source-bytes", "file-bytesio", "source-stringio", "textwrap-raw", "file-raw", "source-raw", "file-text", "source-text", "sis-str", "sis-bytes", "fis-raw", "path-str", "path-pathlib", "loc-file", "loc-http", "loc-http-redirect", "path-guess", "http-guess", "byteswrapper-text", "byteswrapper-str"]
 BUDGET = 4000000
 STRINGS = ["v", "", "a b", "café", "€ uro", "\U0001F600 smile", 'q"uote', "back\\slash", "line\nbreak", "tab\there", "cr\rhere", "crlf\r\nend", "x' y", "é" * 3, "end\\"]
 
@@ -245,6 +245,23 @@ def execute(trace, ctx):
             probe_boundaries(chunks, raw=False)
             ctx.probe("short-read-stream")
             ctx.probe("text-stream-without-buffer")
+        elif mode in ("byteswrapper-text", "byteswrapper-str"):
+            # an InputSource that only offers rdflib's BytesIOWrapper as byte stream: parsers read it in sized chunks
+            # (re-encoding a character stream on the fly, with its _leftover buffer)
+            from rdflib.parser import BytesIOWrapper, InputSource
+
+            src = InputSource()
+            if mode == "byteswrapper-text" and fmt in ("hext", "json-ld"):
+                # these two parsers put a TextIOWrapper on a bare byte stream, which BytesIOWrapper over a character stream
+                # documents it cannot serve (read1); not a delivery the statement speaks of
+                mode = "byteswrapper-str"
+            if mode == "byteswrapper-text":
+                stream = SimText(doc, chunks, fault, name="doc." + ext, stats=ctx.faults)
+                src.setByteStream(BytesIOWrapper(stream, "utf-8"))
+                ctx.probe("short-read-stream")
+            else:
+                src.setByteStream(BytesIOWrapper(doc, "utf-8"))
+            kw = {"source": src}
         elif mode == "sis-str":
             kw = {"source": StringInputSource(doc)}
         elif mode == "sis-bytes":
